@@ -127,6 +127,12 @@ func (u *Universe) PushMediaType(op Op) string {
 		}
 		return MTOther
 	}
+	if op.Mode == 2 && u.Manifests[op.M].Kind == "image" {
+		return MTIndex // the bytes of an image manifest pushed as an index (they parse as an index without members)
+	}
+	if op.Mode == 2 && u.Manifests[op.M].Kind == "index" {
+		return MTImage
+	}
 	if op.Mode == 1 && (u.Manifests[op.M].Kind == "image" || u.Manifests[op.M].Kind == "index") {
 		// the bytes of a structured manifest pushed as an opaque document
 		return MTOpaque
